@@ -5,8 +5,10 @@
 tier=${1:-quick}
 bad=0
 V=$(cd $(dirname $0)/.. && pwd)
+# SEED_FILTER (optional): an extended regular expression the seed id must match, e.g. '^C0[1-6]-' (to split a run)
 for d in $V/seeded/*/; do
   id=$(basename $d)
+  if [ -n "$SEED_FILTER" ] && ! echo "$id" | grep -Eq "$SEED_FILTER"; then continue; fi
   if python3 -c "import json,sys;sys.exit(0 if json.load(open('$d/meta.json')).get('neutralised') else 1)"; then
     echo "$id neutralised (kept for the record; see meta.json)"; continue
   fi
